@@ -34,6 +34,7 @@ pub struct Ep {
     pc_addr: SocketAddr,
     pub phase: &'static str,
     sent: u32,
+    last_seq: Option<u16>,
 }
 
 const SENTINEL: [u8; 12] = [0x5E; 12];
@@ -60,7 +61,7 @@ impl Ep {
             return Err("connection has no RTP port".into());
         }
         let h = UdpSocket::bind("127.0.0.1:0").await.map_err(|e| e.to_string())?;
-        Ok(Ep { pc, source: Arc::new(source), h, pc_addr: SocketAddr::new("127.0.0.1".parse().unwrap(), port), phase: "pre", sent: 0 })
+        Ok(Ep { pc, source: Arc::new(source), h, pc_addr: SocketAddr::new("127.0.0.1".parse().unwrap(), port), phase: "pre", sent: 0, last_seq: None })
     }
 
     fn send_media(&mut self, n: u32) {
@@ -86,6 +87,15 @@ impl Ep {
                 tokio::time::timeout(Duration::from_secs(5), self.pc.wait_for_connected()).await.map_err(|_| "not connected within 5 s")?.map_err(|e| e.to_string())?;
                 // outbound media so that the sender side has history (NACK retransmission, sender reports)
                 self.send_media(8);
+                // inbound media with a gap, so that the receive side (jitter / NACK bookkeeping) holds state
+                for seq in [1000u16, 1001, 1003] {
+                    let mut h = rustrtc::rtp::RtpHeader::new(96, seq, 90_000 + seq as u32 * 3000, 0x1111_2222);
+                    h.marker = true;
+                    if let Ok(b) = rustrtc::rtp::RtpPacket::new(h, vec![0x65; 40]).marshal() {
+                        let _ = self.h.send_to(&b, self.pc_addr).await;
+                    }
+                }
+                self.last_seq = Some(1003);
                 self.drain(Duration::from_millis(5)).await;
                 self.phase = "est";
             }
@@ -122,6 +132,14 @@ impl Ep {
 
     pub fn genuine(&self, tpl: &str) -> Option<Vec<u8>> {
         templates::genuine(tpl)
+    }
+
+    /// `rtp_seq` = the highest RTP sequence number the receive side has seen from the peer.
+    pub fn seq_base(&self, space: &str) -> Option<u64> {
+        match space {
+            "rtp_seq" => self.last_seq.map(|s| s as u64),
+            _ => None,
+        }
     }
 
     pub async fn feed(&mut self, input: &[u8]) -> Feed {
